@@ -834,3 +834,42 @@ def r_execute_optional(ctx: Ctx, rule="R03.6"):
             awaited = any(m.op == "await" and strip_cast(m.ast.value) is u.ast for m in g.nodes)
             rep.ob(rule, "under the coroutine-function guard the call is awaited (the callback runs to completion)", awaited, node=u)
         rep.ob(rule, "the coroutine-function branch calls the function", bool(us), node=t)
+
+
+# ------------------------------------------------------------------ spawner registries
+META_TABLE = {
+    "_group_meta_tasks_running": {
+        "insert": {"apply", "_map", "start", "_pop_ended_meta_tasks"},
+        "remove": {"_cancel_group_meta_tasks", "_pop_ended_meta_tasks"},
+        "clear": {"gather_and_close"},
+        "assign": {"__init__", "_pop_ended_meta_tasks"},
+    },
+    "_meta_tasks_cancelled": {
+        "insert": {"_cancel_group_meta_tasks"},
+        "remove": set(),
+        "clear": {"flush", "gather_and_close"},
+        "assign": {"__init__"},
+    },
+}
+
+
+def r_spawner_registry_who(ctx: Ctx, rule: str):
+    """A spawner is forgotten only when it is done (flush), cancelled together with its group, or when the pool closes."""
+    rep = ctx.rep
+    rep.rule(rule, "WHO(write of the spawner registries): spawner tasks enter _group_meta_tasks_running only in apply/_map/start, leave it only "
+                   "by group cancellation (moved to _meta_tasks_cancelled), by _pop_ended_meta_tasks (done ones) or at close; nothing else "
+                   "forgets a spawner (cancel_group and gather_and_close must be able to find every live one)")
+    n = 0
+    for fld, table in META_TABLE.items():
+        for e in ctx.effects(fields=[fld], kinds=["insert", "remove", "clear", "assign", "aug", "maybe-pop", "maybe-clear", "maybe-popitem", "maybe-update", "maybe-discard", "maybe-remove", "maybe-add"]):
+            names = re.findall(r"\.([A-Za-z_0-9]+)", e.path)
+            if fld not in names or not e.path.startswith("self"):
+                continue
+            kind = e.kind.replace("maybe-", "")
+            kind = {"pop": "remove", "popitem": "remove", "discard": "remove", "update": "insert", "add": "insert", "aug": "assign"}.get(kind, kind)
+            allowed = table.get(kind, set())
+            hosts = ctx.hosts(e.node.func)
+            n += 1
+            rep.ob(rule, f"{kind} on {fld} only by {sorted(allowed)}", hosts <= allowed and ctx.in_pool(e.node.func), node=e.node,
+                   detail=f"{e.kind} {e.path} on behalf of {sorted(hosts)}")
+    rep.floor(rule, "writes of the spawner registries", n, 12)
